@@ -265,7 +265,10 @@ func (t *Target) Invoke(c Call, lg *Log) (out Outcome) {
 		case MDAG:
 			e, res = p.ExecuteDAGModel(c.DAG, data)
 		case MPoolEM:
-			if only, ok := c.Data["\x00second-slot-only"]; ok {
+			if _, ok := c.Data["\x00no-slots"]; ok {
+				// a request that brings nothing at all
+				e, res = p.ExecuteRulesWithSpecifiedEM("", nil, "", nil)
+			} else if only, ok := c.Data["\x00second-slot-only"]; ok {
 				// nothing in the first slot, the request's object in the second
 				e, res = p.ExecuteRulesWithSpecifiedEM("", nil, "k3", only)
 			} else if req, ok := c.Data["Req"]; ok {
